@@ -29,7 +29,7 @@ M = [
     ('list-pop-keeps-datasum', 'src/containers/qlist.c', "    list->datasum -= obj->size;\n", "", ['C09']),
     ('list-reverse-keeps-ends', 'src/containers/qlist.c', "    obj = list->first;\n    list->first = list->last;\n    list->last = obj;\n", "", ['C09']),
     ('stack-push-at-back', 'src/containers/qstack.c', "    return stack->list->addfirst(stack->list, data, size);", "    return stack->list->addlast(stack->list, data, size);", ['C09']),
-    ('vector-shift-one-byte-short', 'src/containers/qvector.c', "    int size = (vector->num - (index + 1)) * vector->objsize;", "    int size = (vector->num - (index + 1)) * vector->objsize - (vector->objsize > 1 ? 1 : 0);", ['C10']),
+    ('vector-shift-one-byte-short', 'src/containers/qvector.c', "    size_t size = (vector->num - (index + 1)) * vector->objsize;", "    size_t size = (vector->num - (index + 1)) * vector->objsize - ((vector->objsize > 1 && vector->num > (size_t)(index + 1)) ? 1 : 0);", ['C10']),
     ('vector-getnext-off-by-one', 'src/containers/qvector.c', "    if (obj->index >= vector->num) {", "    if (obj->index > vector->num) {", ['C10', 'C11']),
     ('list-addat-lock-removed', 'src/containers/qlist.c', "    qlist_lock(list);\n\n    // check maximum number of allowed elements if set", "    // check maximum number of allowed elements if set", ['C13']),
     ('list-popat-unlock-before-unlink', 'src/containers/qlist.c', "    // remove if necessary\n    if (remove == true) {", "    qlist_unlock(list);\n    // remove if necessary\n    if (remove == true) {", ['C13', 'C14']),
@@ -45,7 +45,7 @@ M = [
     ('murmur32-tail-byte-order', 'src/utilities/qhash.c', "            k ^= tail[2] << 16;\n        case 2:\n            k ^= tail[1] << 8;", "            k ^= tail[2] << 8;\n        case 2:\n            k ^= tail[1] << 16;", ['C18']),
     ('fnv64-wrong-shift', 'src/utilities/qhash.c', "        h += (h << 1) + (h << 4) + (h << 5) +\n        (h << 7) + (h << 8) + (h << 40);", "        h += (h << 1) + (h << 4) + (h << 5) +\n        (h << 7) + (h << 8) + (h << 41);", ['C18']),
     ('trim-tail-misses-cr', 'src/utilities/qstring.c', "                    && (*se == ' ' || *se == '\\t' || *se == '\\r' || *se == '\\n');\n            se--)\n        ;\n    se++;\n    *se = '\\0';\n\n    if (ss > str) {", "                    && (*se == ' ' || *se == '\\t' || *se == '\\n');\n            se--)\n        ;\n    se++;\n    *se = '\\0';\n\n    if (ss > str) {", ['C19']),
-    ('replace-bound-one-short', 'src/utilities/qstring.c', "            maxstrlen = ((strlen(srcstr) / strlen(tokstr)) * strlen(word))\n                    + (strlen(srcstr) % strlen(tokstr));", "            maxstrlen = ((strlen(srcstr) / strlen(tokstr)) * strlen(word));", ['C19']),
+    ('replace-bound-one-short', 'src/utilities/qstring.c', "                    maxstrlen += wordlen - tokstrlen;", "                    maxstrlen += wordlen - tokstrlen - 1;", ['C19']),
     ('strcpy-clamp-off-by-one', 'src/utilities/qstring.c', "    if (nbytes >= size)\n        nbytes = size - 1;", "    if (nbytes > size)\n        nbytes = size - 1;", ['C19']),
     ('ini-section-prefix-without-dot', 'src/extensions/qconfig.c', 'char *newname = qstrdupf("%s.%s", section, name);', 'char *newname = qstrdupf("%s%s", section, name);', ['C20']),
     ('apache-type-bit-shifted', 'src/extensions/qaconf.c', "                        else if (option->take & (QAC_A1_INT << (j - 1)))", "                        else if (option->take & (QAC_A1_INT << j))", ['C20']),
